@@ -12,7 +12,8 @@ Self-check of the Python half of the run-level correspondence (no Lean side need
   * all property oracles; C05 normal forms of schedule-independent projects compared with their 1-thread run;
   * summary: input distribution, throughput, every oracle failure grouped by signature with one minimised example.
 
-Oracle failures on the unchanged tree are EXPECTED for the known defects (DESIGN.md section 6); they are listed, never hidden.
+Oracle failures on the unchanged tree are EXPECTED for the open known defects (DESIGN.md section 6); they are listed, never hidden.
+(D11 — teardowns under running tests after a keyboard interrupt with >= 2 workers — is fixed: its witness is a control now.)
 Exit code: 0 unless a recorder invariant / generator validity check failed.
 """
 import argparse
@@ -327,7 +328,8 @@ def classify(sig, project, cfg):
         return "D17"
     if cfg.get("interrupt") and cfg["n"] >= 2 and ("teardown" in sig or "enclosing-scope" in sig or sig.startswith("C07/")
                                                   or sig.startswith("C02/failed-without-failure")):
-        return "D11"       # e.g. an in-flight test fails with "Cannot get fixture ... result" after the early teardown
+        # e.g. an in-flight test fails with "Cannot get fixture ... result" after the early teardown
+        return "D11 REGRESSION? (fixed: skip_all_tasks releases the remaining tasks in dependency order)"
     if cfg.get("interrupt") and any(fx["per_thread"] and fx["setup"] for fx in project["fixtures"]):
         return "D3 (per-thread fixture setup aborted by the interrupt, outside the guarded region)"
     if sig.startswith("C05/order-depends-on-schedule/equal-ranks"):
@@ -401,7 +403,9 @@ WITNESSES = [
     ("(control) distinct ranks: report order is the declaration order whatever the completion order", None,
      _p([_s("s0", [_t("ta", deps=[["s1", "x"]], rank=1), _t("tb", deps=[["s1", "y"]], rank=2)]),
          _s("s1", [_t("x", script=[_GATE]), _t("y", script=[_GATE], rank=2)], rank=2)]), _cfg(2, "lifo")),
-    ("D11 interrupt with 2 workers: session fixture torn down under a running test", "C03/teardown-before-last-use/session",
+    # D11 (fixed): before the repair of skip_all_tasks this input gave C03/teardown-before-last-use/session (the session
+    # teardown task was handed to the pool at the interrupt, while t0 / t1 were still running); now a CONTROL
+    ("D11 (control, fixed) interrupt with 3 workers, two tests in flight: the session fixture is torn down only after they ended", None,
      _p([_s("s0", [_t("t0", ["f0"], [_GATE, _GATE]), _t("t1", [], [_GATE, _GATE], rank=2)])], [_f("f0", "session", [], [_LOG])]),
      _cfg(3, "fifo", interrupt=["quiescent", 1])),
     ("D17 pre_run generator fixture + failing backend: never torn down", "C11/teardowns/teardown-missing/pre_run",
